@@ -841,7 +841,7 @@ def g_life(rng):
         body += b
         names.append(nm)
     N = rng.choice([2, 5, 20]) if nl == 1 else rng.choice([2, 5])
-    ops = list(body) + [{"op": "census", "tag": "after_1", "grace": 4.0}, {"op": "repeat", "n": N, "body": body}, {"op": "census", "tag": "after_1+N", "grace": 4.0}]
+    ops = list(body) + [{"op": "census", "tag": "after_1", "grace": 8.0}, {"op": "repeat", "n": N, "body": body}, {"op": "census", "tag": "after_1+N", "grace": 8.0}]
     return {"threads": [ops], "end": "return"}, {"gen": "g_life", "lifecycles": names, "N": N}
 
 
